@@ -492,8 +492,7 @@ def main():
         nfail = sum(1 for e in base_events if is_fail(e))
         chk.count("fault_free_failed_events", nfail)
         if chk.tier == "quick":
-            step = 1 if name in ("param", "property", "alias", "resolve") else \
-                (5 if name.startswith("gen") else 7)
+            step = 3 if name.startswith("gen") else 1
             off = chk.seed % step
             ks = list(range(1 + off, K + 1, step))
         else:
@@ -509,8 +508,8 @@ def main():
     chk.finish(
         rule="for each scripted history and each generated API history "
              "(C03 generator: quick 8, thorough 96) every allocation index k "
-             "(quick: every k of the four short scripts, every 7th k of the "
-             "other scripts, every 5th of the generated ones) made from "
+             "(quick: every k of the scripted histories, every 3rd of the "
+             "generated ones) made from "
              "a libvna call site is failed once; the faulted call must succeed "
              "or fail with ENOMEM, the process must stay clean under "
              "ASan/UBSan/LSan, and after one retry of the failed call every "
